@@ -158,7 +158,7 @@ def run(ctx, prop):
     def add_run(f, sched, replies, finish, why):
         rid = len(runs) + 1
         runs.append(dict(id=rid, family=f['name'], uploaders=f['uploaders'], files=f['files'], weekOf=f['weekof'], weeks=f['weeks'], maxRuns=f['maxruns'], late=f['late'],
-                         schedule=sched, replies=replies, finish=finish, seed=rng.randrange(1 << 30), extras=False, dirDate=(why.startswith('late-after') or (rid % 5 == 0))))
+                         schedule=sched, replies=replies, finish=finish, seed=rng.randrange(1 << 30), extras=False, dirDate=(why.startswith('late-after') or (rid % 5 == 0)), buildVar=rid % 6, modeLocal=False))
         runfam[rid] = (f, why)
 
     oneshot = ['OneShot(i, W) == IF W /\\ TLCGet(i) = 0 THEN TLCSet(i, 1) /\\ FALSE ELSE TRUE', 'ASSUME \\A i \\in 1..40 : TLCSet(i, 0)',
@@ -228,6 +228,15 @@ def run(ctx, prop):
             r1 = dict(r0, id=rid, extras=True, seed=rng.randrange(1 << 30))
             runs.append(r1)
             runfam[rid] = (runfam[r0['id']][0], 'extras')
+    # the same in mode local (reports are made, nothing is offered for upload; not part of the protocol model)
+    nloc = 0
+    for r0 in list(runs):
+        if runfam[r0['id']][1] in ('random', 'rr', 'seq') and not r0['extras'] and nloc < ctx.pick(40, 300):
+            nloc += 1
+            rid = len(runs) + 1
+            r1 = dict(r0, id=rid, modeLocal=True, extras=(nloc % 2 == 0), seed=rng.randrange(1 << 30))
+            runs.append(r1)
+            runfam[rid] = (runfam[r0['id']][0], 'modelocal')
 
     if ctx.replay:
         det = json.load(open(ctx.replay))['detail']
@@ -319,7 +328,7 @@ def run(ctx, prop):
     accepted, diverged = 0, []
     byfam = {}
     for k in sorted(obs):
-        if not runs[k - 1]['extras']:
+        if not runs[k - 1]['extras'] and not runs[k - 1].get('modeLocal'):
             byfam.setdefault(runfam[k][0]['name'], []).append(k)
     for f in fams:
         remaining = list(byfam.get(f['name'], []))
